@@ -2,10 +2,13 @@
 # usage: run.sh <ID> quick|thorough
 cd "$(dirname "$0")" || exit 2
 export GOFLAGS=-mod=mod GOPROXY=off GOSUMDB=off GOTOOLCHAIN=local GOWORK=off
-unset GOWORK_FILE
 [ -x bin/pv ] || ./setup.sh >/dev/null 2>&1 || { echo "VIOLATION property=$1 replay=/dev/null rule=setup kind=undecided :: cannot build the checker"; exit 2; }
 tier=${2:-quick}
 if [ "$tier" = thorough ]; then
-  exec bin/pv thorough -repo /repo -verif "$(pwd)" "$1"
+  # same rules under three configurations (amd64/VTA, 386/VTA, amd64/CHA), then checker sensitivity on the mutant corpus
+  bin/pv check -repo /repo -verif "$(pwd)" -tier thorough "$1"; rc=$?
+  python3 tools/selftest.py -q "$1"
+  [ -f out/crossref.txt ] || tools/crossref.sh >/dev/null 2>&1
+  exit $rc
 fi
 exec bin/pv check -repo /repo -verif "$(pwd)" -tier quick "$1"
